@@ -196,4 +196,4 @@ if __name__ == '__main__':
                      'explored exhaustively as choose() decisions — '
                      'seeds are thereby universally quantified rather than '
                      'sampled', 'state/query scope as C03'],
-        quick_budget=170, thorough_budget=1700))
+        quick_budget=420, thorough_budget=2400))
